@@ -9,7 +9,7 @@ def key(d):
 for d in sorted(os.listdir(root), key=key):
     m = json.load(open(os.path.join(root, d, "meta.json")))
     first = m["what_it_needs_to_manifest"].strip().splitlines()[0][:150].replace("|", "/")
-    rows.append("| %s%s | %s | %s | %s |" % (d, " (round 2)" if m.get("round") == 2 else "", first, "; ".join(m["detected_by"]).replace("|", "/"),
+    rows.append("| %s%s | %s | %s | %s |" % (d, (" (round %d)" % m["round"]) if m.get("round") else "", first, "; ".join(m["detected_by"]).replace("|", "/"),
                                          "**missed at first**" if m["missed_before_strengthening"] else ""))
 table = "\n".join(rows) + "\n"
 p = "/verif/DESIGN.md"
